@@ -298,6 +298,9 @@ def stepFloatTable (tbl : List (Nat × FInst F)) (factor : Rat) (typeTag : Strin
       done (put id { inst with st := st', hist := hist, last := some implOut, outs := outs })
         (report d op { model := if looseKind inst.st then implS else frenderOut (some y), impl := implS, clauses := clauses,
                        kind := fkindName inst.st })
+  | ["sm", id] => do
+    let _ ← get (← id.toNat?)
+    done tbl (report (d.flag "state-mut-peek") op { model := "ok", impl := implS })
   | ["long", id, cap] => do
     let id ← id.toNat?
     let inst ← get id
@@ -353,6 +356,8 @@ end generic
 
 def stepI64Op (d : DState) (op : String) (toks impl : List String) : Option (DState × List String) :=
   let implS := " ".intercalate impl
+  if toks.head? == some "sm" && (toks[1]?.bind String.toNat?).any (fun id => d.i64s.any (·.1 == id)) then
+    some (report d op { model := "ok", impl := implS }) else
   let get (id : Nat) : Option (FInst I64) := (d.i64s.find? (·.1 == id)).map (·.2)
   let put (d : DState) (id : Nat) (i : FInst I64) : DState := { d with i64s := (id, i) :: d.i64s.filter (·.1 != id) }
   let rl (l : List I64) : String := if l.isEmpty then "-" else " ".intercalate (l.map I64.render)
